@@ -59,8 +59,11 @@ def main():
         diff = open(os.path.join(d, 'patch.diff')).read()
         files = sorted(set(l[6:] for l in diff.split('\n') if l.startswith('+++ b/')))
         avoid.setdefault(pid, []).append('- (%s) %s' % (', '.join(files), ' '.join(note.split())[:380]))
+    only = os.environ.get('WAVE_ONLY', '').split(',') if os.environ.get('WAVE_ONLY') else None
     for p in props:
         pid = p['id']
+        if only and pid not in only:
+            continue
         txt = ['%s - %s' % (pid, p['title']), '', 'Statement: ' + p['statement'], '', 'Quantifier: %s (%s)' % (p['quantifier']['text'], ', '.join(p['quantifier']['over'])),
                '', 'Why the existing tests cannot settle it: ' + p['why_tests_cant'], '', 'Anchors in the code:', json.dumps(p['anchors'], indent=1)]
         open('/tmp/prop-%s.txt' % pid, 'w').write('\n'.join(txt) + '\n')
